@@ -24,6 +24,9 @@ Local Open Scope list_scope.
 (* Whenever the transcribed executor returns a frame t, the reference semantics under the Pandas conventions is defined, t has
    exactly its columns (as a set; they are pairwise distinct), and the rows of t, read BY NAME in the reference column order, are a
    permutation of the reference rows.  Column ORDER and row ORDER are not claimed: they differ (see the _refuted witnesses). *)
+(* strengthens: the Pandas side ("Pandas computes sem_gen fl_pandas", until now tied by correspondence only) of Props/C01.v (SQLite = Pandas), C02.v (PostgreSQL = Pandas), C03.v (Polars = Pandas), C09.v (one row per group),
+   C16.v (join = SQL join), C18.v (row-order independence), C27.v (window functions): every statement there about sem_gen fl_pandas now holds, up
+   to column order and row order, for the transcribed executor over the modelled pandas primitives *)
 Theorem PEXEC_refines_sem : forall (srt : sorter) (arr : arranger) (q : pquirks) (p : op) (e : env) (t : table),
   sorter_ok srt -> arranger_ok arr -> wf_op_b p = true -> total_orders fl_pandas p e -> exact_group_keys fl_pandas p e ->
   pexec_gen srt arr q p e = Some t ->
@@ -33,6 +36,7 @@ Proof. exact pexec_refines_sem_cells. Qed.
 Print Assumptions PEXEC_refines_sem.
 
 (* the same for the executor the correspondence runs (stable sort), with the premises as the computable check of Model/PermGuard.v *)
+(* strengthens: the same properties, in the form their correspondences can evaluate (C18.v's computable premise perm_guard_b) *)
 Theorem PEXEC_refines_sem_checked : forall (q : pquirks) (p : op) (e : env) (t : table),
   wf_op_b p = true -> perm_guard_b fl_pandas p e = true -> pexec q p e = Some t ->
   exists t', sem_gen fl_pandas p e = Some t' /\ (forall c, In c (cols t) <-> In c (cols t')) /\ NoDup (cols t') /\
@@ -45,6 +49,7 @@ Print Assumptions PEXEC_refines_sem_checked.
 
 (* the refinement relation itself (row-for-row equal cells against a table with the reference columns and a permutation of the
    reference rows), as used by the induction; coordinators can chain it with `refines_trans` *)
+(* strengthens: the same; the relation C01.v / C16.v / C18.v can chain with their own tab_eqv / Permutation lemmas (ComposeP5, PermP1-4) *)
 Theorem PEXEC_refines_relation : forall (srt : sorter) (arr : arranger) (q : pquirks) (p : op) (e : env) (t : table),
   sorter_ok srt -> arranger_ok arr -> wf_op_b p = true -> total_orders fl_pandas p e -> exact_group_keys fl_pandas p e ->
   pexec_gen srt arr q p e = Some t ->
@@ -54,31 +59,39 @@ Print Assumptions PEXEC_refines_relation.
 
 (* ---------------------------------------------------------------- one refinement lemma per step kind *)
 (* steps that are the reference operator itself *)
+(* strengthens: C01.v, C08.v (per-operator: the table step IS sem_select_cols, columns in the declared order) *)
 Theorem PEXEC_table_step_exact : forall cs df u, px_table cs df = Some u -> u = sem_select_cols cs df.
 Proof. exact px_table_exact. Qed.
 Print Assumptions PEXEC_table_step_exact.
+(* strengthens: C01.v, C18.v (row filter keeps the row order) *)
 Theorem PEXEC_select_rows_step_exact : forall x t u, px_select_rows x t = Some u -> u = sem_select_rows fl_pandas x t.
 Proof. exact px_select_rows_exact. Qed.
 Print Assumptions PEXEC_select_rows_step_exact.
+(* strengthens: C01.v, C08.v *)
 Theorem PEXEC_select_columns_step_exact : forall cs t u, px_select_cols cs t = Some u -> u = sem_select_cols cs t.
 Proof. exact px_select_cols_exact. Qed.
 Print Assumptions PEXEC_select_columns_step_exact.
+(* strengthens: C01.v, C08.v *)
 Theorem PEXEC_drop_columns_step_exact : forall ds t u, px_drop_cols ds t = Some u -> u = sem_drop_cols ds t.
 Proof. exact px_drop_cols_exact. Qed.
 Print Assumptions PEXEC_drop_columns_step_exact.
+(* strengthens: C01.v, C08.v, C15.v *)
 Theorem PEXEC_rename_columns_step_exact : forall m t u, px_rename m t = Some u -> u = sem_rename m t.
 Proof. exact px_rename_exact. Qed.
 Print Assumptions PEXEC_rename_columns_step_exact.
+(* strengthens: C01.v, C08.v, C15.v *)
 Theorem PEXEC_map_columns_step_exact : forall m dels t u,
   NoDup (cols (sem_rename m t)) -> width_ok t -> px_map_cols m dels t = Some u -> u = sem_drop_cols dels (sem_rename m t).
 Proof. exact px_map_cols_exact. Qed.
 Print Assumptions PEXEC_map_columns_step_exact.
 (* order_rows: with the stable sort it IS sem_order; with any sorting routine the same columns and a permutation of the reference rows,
    the same list as soon as the order is total on the data *)
+(* strengthens: C18.v (order_rows sorts and limits: the Pandas step with a stable sort IS sem_order) *)
 Theorem PEXEC_order_rows_step_exact : forall cs rev lim t u,
   subset cs (cols t) = true -> px_order stable_sorter cs rev lim t = Some u -> u = sem_order fl_pandas cs rev lim t.
 Proof. exact px_order_exact. Qed.
 Print Assumptions PEXEC_order_rows_step_exact.
+(* strengthens: C18.v (with pandas' unstable single-key sort: same rows, the same list when the order is total) *)
 Theorem PEXEC_order_rows_step_refines : forall srt cs rev lim t u, sorter_ok srt ->
   (lim <> None -> total_on fl_pandas (cols t) (map (fun c => (c, mem c rev)) cs) (rows t)) ->
   px_order srt cs rev lim t = Some u ->
@@ -86,12 +99,14 @@ Theorem PEXEC_order_rows_step_refines : forall srt cs rev lim t u, sorter_ok srt
 Proof. exact (fun srt cs rev lim t u So => px_order_refines srt So cs rev lim t u). Qed.
 Print Assumptions PEXEC_order_rows_step_refines.
 (* concat_rows (id column, an empty side returned as it is): the reference table up to column order *)
+(* strengthens: C01.v, C08.v (concat_rows incl. id column and empty sides, up to column order) *)
 Theorem PEXEC_concat_rows_step_refines : forall idc an bn l r u,
   (forall c, In c (cols l) <-> In c (cols r)) -> (forall c, idc = Some c -> ~ In c (cols l)) -> width_ok l -> width_ok r ->
   px_concat idc an bn l r = Some u -> tab_eqv u (sem_concat idc an bn l r).
 Proof. exact px_concat_eqv. Qed.
 Print Assumptions PEXEC_concat_rows_step_refines.
 (* non-windowed extend: both column-copy paths of add_data_frame_columns_to_data_frame_ *)
+(* strengthens: C01.v, C08.v (non-windowed extend; both column-copy paths) *)
 Theorem PEXEC_extend_step_refines : forall ops t u,
   (0 < nrows t)%nat -> ops <> [] -> NoDup (map fst ops) -> width_ok t ->
   px_extend_plain ops t = Some u -> tab_eqv u (sem_extend fl_pandas ops t) /\ width_ok u.
@@ -99,6 +114,8 @@ Proof. exact px_extend_plain_eqv. Qed.
 Print Assumptions PEXEC_extend_step_refines.
 (* windowed extend: the real algorithm (sub-frame, original index, sort by partition + order + value columns, group, transform, sort
    back, copy out), for every sorting routine *)
+(* strengthens: C27.v (window functions per ordered partition: the executor's sort / group / transform / sort-back algorithm computes sem_wextend), C18.v
+   (exactly its total-order premise is needed), C08.v (columns without any data premise) *)
 Theorem PEXEC_window_step_refines : forall srt ops w t x cs0,
   sorter_ok srt -> width_ok t -> (forall c, In c (cols t) <-> In c cs0) -> (0 < nrows t)%nat ->
   nodup_names (map fst ops) = true -> ops <> [] ->
@@ -111,6 +128,7 @@ Theorem PEXEC_window_step_refines : forall srt ops w t x cs0,
 Proof. exact px_extend_windowed_eqv. Qed.
 Print Assumptions PEXEC_window_step_refines.
 (* project: scratch column of ones, stand-ins for constants, groupby(dropna=False), reset_index, empty-input cases, keyed check *)
+(* strengthens: C09.v (one row per group / one row without grouping: the executor's groupby(dropna=False) + scratch column of ones), C01.v *)
 Theorem PEXEC_project_step_refines : forall q ops gb t u,
   width_ok t -> (forall g, In g gb -> In g (cols t)) -> (forall ke, In ke ops -> agg_ok (cols t) (snd ke)) ->
   (ops <> [] \/ gb <> []) ->
@@ -120,6 +138,7 @@ Print Assumptions PEXEC_project_step_refines.
 (* natural_join: suffix, scratch key for an empty `on` (also CROSS), the null-key marker (since /repo af27aca null keys match
    nothing), merge (an inner merge lists its rows in any order), the coalescing loop over every suffixed copy merge produced (since
    756a9c2), dropped scratch columns *)
+(* strengthens: C16.v (natural_join = SQL join on Pandas: merge + null-key marker + coalescing loop refine sem_join false, i.e. null keys never match), C01.v *)
 Theorem PEXEC_join_step_refines : forall arr declared on_a on_b jt l r x,
   arranger_ok arr -> width_ok l -> width_ok r ->
   (forall c, In c on_a -> In c (cols l)) -> (forall c, In c on_b -> In c (cols r)) -> List.length on_a = List.length on_b ->
@@ -130,6 +149,8 @@ Print Assumptions PEXEC_join_step_refines.
 
 (* ---------------------------------------------------------------- no scratch column survives *)
 (* no premise on the data: whatever the executor returns has exactly the declared columns (every scratch column it added is gone) *)
+(* strengthens: C08.v (result columns are exactly the declared ones: now for the executor's own scratch columns, without premise on the data),
+   C15.v part B (no scratch column is left behind), C16.v (no <col>_tmp_right_col / merge key / null-key marker survives a join) *)
 Theorem PEXEC_no_scratch_column_survives : forall (srt : sorter) (arr : arranger) (q : pquirks) (p : op) (e : env) (t : table),
   sorter_ok srt -> arranger_ok arr -> wf_op_b p = true -> pexec_gen srt arr q p e = Some t ->
   (forall c, In c (cols t) <-> In c (column_names p)) /\ width_ok t.
@@ -138,6 +159,8 @@ Print Assumptions PEXEC_no_scratch_column_survives.
 (* ---------------------------------------------------------------- the chosen scratch names never capture a user column *)
 (* since /repo c06ea4b: _unused_column_name returns none of the names in use, the join suffix makes no suffixed shared name a name in
    use; consequently the scratch columns of the three steps are new names (and the stand-ins for constants too) *)
+(* strengthens: C15.v part B (Model/ScratchNames.v: the scratch names are chosen away from every user column; here for the names as the
+   transcribed steps compute them, incl. the null-key marker of /repo af27aca) *)
 Theorem PEXEC_scratch_names_never_capture :
   (forall base taken, ~ In (unused_column_name base taken) taken) /\
   (forall common names c, In c common -> ~ In (sapp c (right_suffix common names)) names) /\
@@ -165,6 +188,7 @@ Qed.
 Print Assumptions PEXEC_scratch_names_never_capture.
 
 (* ---------------------------------------------------------------- join: shared columns are COALESCE(left, right) *)
+(* strengthens: C16.v ("shared non-key columns take the left value, or the right value where the left is null", cell by cell for the executor) *)
 Theorem PEXEC_join_coalesce : forall arr declared on_a on_b jt l r x,
   arranger_ok arr -> width_ok l -> width_ok r ->
   (forall c, In c on_a -> In c (cols l)) -> (forall c, In c on_b -> In c (cols r)) -> List.length on_a = List.length on_b ->
@@ -187,18 +211,22 @@ Print Assumptions PEXEC_join_coalesce.
 (* findings about Model/Sem.v as a MODEL of the Pandas executor (its correspondence compares rows as a multiset and columns as a set,
    which is all it is right about): *)
 (* 1. row order: pandas lists the groups of a project in sorted key order (and interleaves unmatched rows of a left / right join) *)
+(* strengthens: C18.v / C01.v (why their correspondences compare rows as a multiset unless the pipeline ends in order_rows) *)
 Theorem PEXEC_exact_row_order_refuted :
   exists p e t t', wf_op_b p = true /\ perm_guard_b fl_pandas p e = true /\ pexec q_code p e = Some t /\ sem_gen fl_pandas p e = Some t' /\
                    cols t = cols t' /\ rows t <> rows t'.
 Proof. exact exact_row_order_refuted. Qed.
 Print Assumptions PEXEC_exact_row_order_refuted.
 (* 2. column order: an extend assigning more than half as many columns as the frame has moves an overwritten column to the end *)
+(* strengthens: C08.v (the declared ORDER of columns is not what the Pandas executor returns after such an extend; the SQLite backend returns the
+   same order as Pandas: a finding about column_names as a model of the result order, not about the executors) *)
 Theorem PEXEC_exact_column_order_refuted :
   exists p e t t', wf_op_b p = true /\ perm_guard_b fl_pandas p e = true /\ pexec q_code p e = Some t /\ sem_gen fl_pandas p e = Some t' /\ cols t <> cols t'.
 Proof. exact exact_column_order_refuted. Qed.
 Print Assumptions PEXEC_exact_column_order_refuted.
 (* 3. the window premise is needed: rows tying on the order columns are taken in the order of their VALUE columns by the executor
       (it sorts the sub-frame by partition + order + value columns), in frame order by Sem.v *)
+(* strengthens: C18.v, C27.v (their total-order premise cannot be dropped for the Pandas executor) *)
 Theorem PEXEC_window_order_premise_refuted :
   exists p e t t', wf_op_b p = true /\ exact_keys_b fl_pandas p e = true /\ total_orders_b fl_pandas p e = false /\
                    pexec q_code p e = Some t /\ sem_gen fl_pandas p e = Some t' /\ ~ refines t t'.
@@ -207,6 +235,7 @@ Print Assumptions PEXEC_window_order_premise_refuted.
 (* a finding about the CODE, fixed by /repo db5bdc2: with table_is_keyed_by_columns grouping with pandas' default dropna=True the
    executor raised where the semantics is defined (every group key of a project contains a null); with dropna=False (the code now)
    it returns the reference table *)
+(* strengthens: C09.v (a grouped project must return a row per group also when every key contains a null: fixed by /repo db5bdc2) *)
 Theorem PEXEC_project_keyed_check_history_refuted :
   exists p e t', wf_op_b p = true /\ perm_guard_b fl_pandas p e = true /\ sem_gen fl_pandas p e = Some t' /\
                  pexec q_before_db5bdc2 p e = None /\ pexec q_code p e = Some t'.
